@@ -13,7 +13,7 @@ PROP = {
             "custom requirePattern lists, moduleMap prefix rewrites, strict.requirePath on/off) x history of 0-6 add/remove/touch steps (both removal "
             "entry points) x up to 24 require strings (every derivable module name, its suffixes, prefixed, slash form, mapped forms, unresolvable); "
             "distinct = FNV(case); non-trivial = >= 3 require strings resolved to the file(s) the reference selects and >= 1 correctly unresolvable",
-    "min_nontrivial": {"quick": 3000, "thorough": 150000},
+    "min_nontrivial": {"quick": 2000, "thorough": 100000},
     "max_secs": {"quick": 60, "thorough": 900},
     "require_clauses": ["obs:resolved", "obs:resolved-among-duplicates", "obs:unresolvable-ok", "obs:step-exact", "obs:step-fuzzy", "obs:step-mapped-exact",
                         "obs:determinism-compared", "obs:type-compared", "obs:definition-compared", "obs:history-steps"],
